@@ -88,6 +88,7 @@ type Exec struct {
 	allocOrder     map[*Term]int
 	bounded        map[*Term]bool
 	wholeCopy      map[*Term]wholeCopy
+	localFieldRefs []localField
 	noExpand       int
 	typeIDs        map[string]int
 	freshErrs      []*Term
@@ -760,9 +761,14 @@ func (ex *Exec) execInstr(fr *frame, st *State, in ssa.Instruction) {
 		// zero-initialise
 		ex.frameOff(func() { ex.storeNoNilCheck(st, ptr, ex.tm.Zero(el)) })
 		ex.initGhostFields(st, ref, el)
-		if _, isStruct := derefStruct(el); !isStruct || isHashType(el) || isAddrType(el) {
+		if sT, isStruct := derefStruct(el); !isStruct || isHashType(el) || isAddrType(el) {
 			if in.Comment != "" && in.Comment != "complit" && in.Comment != "varargs" {
 				ex.localCellRefs[ref] = "*" + shortTypeName(el) // a captured / address-taken local variable
+			}
+		} else if in.Comment != "" && in.Comment != "complit" && in.Comment != "varargs" && addrStaysLocal(in, 0) {
+			// a struct variable whose address is only returned: no callee can reach it before the return
+			for i := 0; i < sT.NumFields(); i++ {
+				ex.localFieldRefs = append(ex.localFieldRefs, localField{ref, fieldRegion(el, sT, i)})
 			}
 		}
 		st.vals[in] = ref
@@ -1577,4 +1583,41 @@ func sliceStep(p *Pool, s, idx *Term, el types.Type) Step {
 		return Step{Kind: StepIndex, Index: p.Add(off, idx), T: el}
 	}
 	return Step{Kind: StepIndex, Index: idx, Off: off, T: el}
+}
+
+type localField struct {
+	ref    *Term
+	region string
+}
+
+// addrStaysLocal: the address v is only used to read and write the variable itself (directly or through field /
+// element addresses) or returned; it is never stored, passed to a call, captured or converted.
+func addrStaysLocal(v ssa.Value, depth int) bool {
+	if depth > 4 || v.Referrers() == nil {
+		return false
+	}
+	for _, r := range *v.Referrers() {
+		switch r := r.(type) {
+		case *ssa.DebugRef, *ssa.Return:
+		case *ssa.UnOp:
+			if r.Op != token.MUL {
+				return false
+			}
+		case *ssa.Store:
+			if r.Val == v {
+				return false
+			}
+		case *ssa.FieldAddr:
+			if !addrStaysLocal(r, depth+1) {
+				return false
+			}
+		case *ssa.IndexAddr:
+			if r.Index == v || !addrStaysLocal(r, depth+1) {
+				return false
+			}
+		default:
+			return false
+		}
+	}
+	return true
 }
